@@ -13,6 +13,7 @@ import (
 	"github.com/IrineSistiana/mosproxy/internal/dnsmsg"
 	"github.com/IrineSistiana/mosproxy/internal/mlog"
 	"github.com/IrineSistiana/mosproxy/internal/pool"
+	"github.com/IrineSistiana/mosproxy/internal/verifhook"
 	"github.com/IrineSistiana/mosproxy/internal/utils"
 	"github.com/rs/zerolog"
 	"github.com/valyala/fasthttp"
@@ -70,6 +71,7 @@ func (r *router) startFastHttpServer(cfg *ServerConfig) (*fastHttpServer, error)
 	fs := &fastHttpServer{s: s, l: l}
 	go func() {
 		defer l.Close()
+		verifhook.Point("fasthttp.serve")
 		err := s.Serve(l)
 		if err != nil && !errors.Is(err, net.ErrClosed) {
 			r.fatal("fasthttp server exited", err)
